@@ -240,6 +240,15 @@ impl DiscoveryDB {
     if active_disposal {
       self.remove_topic_reader_with_prefix(guid_prefix);
       self.remove_topic_writer_with_prefix(guid_prefix);
+      // The participant may have timed out earlier, so that its endpoints are
+      // waiting in the attic for it to come back. It has now told us that it is
+      // gone for good, so forget those, too.
+      self
+        .external_topic_readers_attic
+        .retain(|guid, _| guid.prefix != guid_prefix);
+      self
+        .external_topic_writers_attic
+        .retain(|guid, _| guid.prefix != guid_prefix);
     } else {
       // move to attic
       move_by_guid_prefix(
